@@ -961,71 +961,105 @@ func ruleRelease(c *Ctx, a *reloadAnchors) {
 
 // C10.STOPFN: the stop function returned on success signals the owner goroutine and waits for the result of Close.
 func ruleStopFn(c *Ctx, a *reloadAnchors) {
-	// returned closures of runCfg on the success path
+	p := c.P
+	inMain := func(h *ssa.Function) bool { return eng.PkgPathOf(h) != eng.Mod+"/"+mainPkg }
+	// the stop functions returned by runCfg on the success path: closures, or methods bound to the generation's handle object
 	var stopFns []*ssa.Function
 	for _, r := range eng.Returns(a.runCfg) {
 		if len(r.Results) == 0 {
 			continue
 		}
-		for _, o := range c.P.Origins(r.Results[0], eng.Plain) {
-			if mc, ok := o.(*ssa.MakeClosure); ok {
-				if fn, ok := mc.Fn.(*ssa.Function); ok {
-					stopFns = append(stopFns, fn)
+		for _, o := range p.Origins(r.Results[0], eng.Plain) {
+			mc, ok := o.(*ssa.MakeClosure)
+			if !ok {
+				continue
+			}
+			fn, ok := mc.Fn.(*ssa.Function)
+			if !ok {
+				continue
+			}
+			if strings.HasPrefix(fn.Synthetic, "bound method wrapper") {
+				for _, cl := range eng.Calls(fn) {
+					if g := cl.Common().StaticCallee(); g != nil && p.InRepo(g) {
+						fn = g
+					}
 				}
 			}
+			stopFns = append(stopFns, fn)
 		}
 	}
-	if !c.Floor("STOPFN", "stop closures returned by "+short(a.runCfg), len(stopFns), 1) {
+	if !c.Floor("STOPFN", "stop functions returned by "+short(a.runCfg), len(stopFns), 1) {
 		return
 	}
-	// channels the owner goroutine blocks on (cells), channels it sends the Close result on
+	// identity of a channel value: the local variable it lives in, or the (construct-only) field of the handle object
+	chanIDs := func(v ssa.Value) []string {
+		var out []string
+		if u, ok := v.(*ssa.UnOp); ok && u.Op == token.MUL {
+			if cell := eng.CellRoot(u.X); cell != nil {
+				out = append(out, fmt.Sprintf("cell:%p", cell))
+			}
+		}
+		for _, o := range p.Origins(v, eng.Plain) {
+			if t, f, _, ok := eng.FieldLoad(o); ok {
+				out = append(out, "field:"+t+"."+f)
+			}
+			if mc, ok := o.(*ssa.MakeChan); ok {
+				out = append(out, fmt.Sprintf("make:%p", mc))
+			}
+		}
+		return out
+	}
+	oreg := c.NewRegion(a.owner, 2, inMain)
+	ownerRecv := map[string]bool{}
+	oreg.Instrs(func(_ *ssa.Function, ins ssa.Instruction) {
+		if u, ok := ins.(*ssa.UnOp); ok && u.Op == token.ARROW {
+			for _, id := range chanIDs(u.X) {
+				ownerRecv[id] = true
+			}
+		}
+	})
 	for _, sf := range stopFns {
+		sreg := c.NewRegion(sf, 2, inMain)
 		sends, recvs := 0, 0
-		sendCells := map[*ssa.Alloc]bool{}
-		for _, b := range sf.Blocks {
-			for _, ins := range b.Instrs {
-				switch v := ins.(type) {
-				case *ssa.Send:
+		signals := false
+		sreg.Instrs(func(_ *ssa.Function, ins ssa.Instruction) {
+			switch v := ins.(type) {
+			case *ssa.Send:
+				sends++
+				for _, id := range chanIDs(v.Chan) {
+					if ownerRecv[id] {
+						signals = true
+					}
+				}
+			case *ssa.Call:
+				if bc, ok := isBuiltinCall(v, "close"); ok {
 					sends++
-					for _, o := range c.P.Origins(v.Chan, eng.OriginOpts{}) {
-						_ = o
-					}
-					if u, ok := v.Chan.(*ssa.UnOp); ok {
-						if cell := eng.CellRoot(u.X); cell != nil {
-							sendCells[cell] = true
-						}
-					}
-				case *ssa.UnOp:
-					if v.Op == token.ARROW {
-						recvs++
-					}
-				}
-			}
-		}
-		// the owner must block on a cell the stop function sends on (or closes)
-		ownerWaits := false
-		for _, b := range a.owner.Blocks {
-			for _, ins := range b.Instrs {
-				if u, ok := ins.(*ssa.UnOp); ok && u.Op == token.ARROW {
-					if l, ok := u.X.(*ssa.UnOp); ok {
-						if cell := eng.CellRoot(l.X); cell != nil && sendCells[cell] {
-							ownerWaits = true
+					for _, id := range chanIDs(bc.Call.Args[0]) {
+						if ownerRecv[id] {
+							signals = true
 						}
 					}
 				}
+			case *ssa.UnOp:
+				if v.Op == token.ARROW {
+					recvs++
+				}
 			}
-		}
-		c.Check("STOPFN", short(sf)+":signals-owner", c.P.Pos(sf.Pos()), sends >= 1 && ownerWaits, fmt.Sprintf("stop function sends=%d; owner goroutine receives on the same channel=%v", sends, ownerWaits))
-		c.Check("STOPFN", short(sf)+":awaits-close", c.P.Pos(sf.Pos()), recvs >= 1, "the stop function does not wait for the owner goroutine's close result")
+		})
+		c.Check("STOPFN", short(sf)+":signals-owner", p.Pos(sf.Pos()), sends >= 1 && signals, fmt.Sprintf("stop function sends=%d; owner goroutine receives on the same channel=%v", sends, signals))
+		c.Check("STOPFN", short(sf)+":awaits-close", p.Pos(sf.Pos()), recvs >= 1, "the stop function does not wait for the owner goroutine's close result")
 	}
 	// owner: after the blocking receive on the stop channel, the listener set is closed on every path to exit
-	closeQ := orDeferred(a.owner, nil, isCall("(*"+a.lsType+").Close"))
-	for _, b := range a.owner.Blocks {
-		for _, ins := range b.Instrs {
-			if isBlockingRecv(ins) {
-				ok, bad := eng.MustPass(eng.After(ins), closeQ)
-				c.CheckAt("STOPFN", short(a.owner)+":close-after-stop-signal", ins, ok, fmt.Sprintf("after the stop signal the owner can exit at %s without closing the listener set", c.P.IPos(bad)))
-			}
+	isClose := isCall("(*" + a.lsType + ").Close")
+	nRecv := 0
+	oreg.Instrs(func(f *ssa.Function, ins ssa.Instruction) {
+		if !isBlockingRecv(ins) {
+			return
 		}
-	}
+		nRecv++
+		closeQ := orDeferred(f, nil, isClose)
+		ok, bad := oreg.MustPassUp(eng.After(ins), closeQ)
+		c.CheckAt("STOPFN", short(a.owner)+":close-after-stop-signal", ins, ok, fmt.Sprintf("after the stop signal the owner can exit at %s without closing the listener set", p.IPos(bad)))
+	})
+	c.Floor("STOPFN", "blocking receives in the owner goroutine", nRecv, 1)
 }
